@@ -243,6 +243,7 @@ def cob(x): return copt(x, cz)
 def coq_check(c, obs):
     op = c['op']; D = cbits(c['bits'])
     if len(c['bits']) > 3000 and op not in ('find', 'rfind', 'findall'): return None
+    if len(c['bits']) > 10000: return None      # the model evaluation is quadratic; beyond one chunk boundary the oracle decides (and C12_mirror_findall covers every size)
     def cont(o): return ('ok', o[1][0]) if o[0] == 'ok' else o
     if op == 'slice': return f"rbits_eqb (bs_getitem_slice true {D} {cslice(*c['k'])}) {cres(obs, cbits)}"
     if op == 'getitem': return f"rbool_eqb (bs_getitem_int true {D} {cz(c['i'])}) {cres(obs, cbool)}"
